@@ -1,6 +1,7 @@
 package main
 
 import (
+	"strconv"
 	"regexp"
 	"encoding/json"
 	"flag"
@@ -48,7 +49,7 @@ func setup() *Engine {
 	}
 	broken := map[string]string{}
 	var l *Loaded
-	for attempt := 0; attempt < 4; attempt++ {
+	for attempt := 0; attempt < 8; attempt++ {
 		l, err = loadRepo(overlay)
 		if err == nil {
 			break
@@ -66,12 +67,33 @@ func setup() *Engine {
 			fmt.Sscanf(m[2], "%d", &lineNo)
 			src := strings.Split(string(overlay[m[1]]), "\n")
 			if lineNo-1 < len(src) {
-				fm := regexp.MustCompile(`^func ([A-Za-z0-9_]+)\(`).FindStringSubmatch(src[lineNo-1])
-				if fm != nil && (strings.HasPrefix(fm[1], "spec_") || strings.HasPrefix(fm[1], "derive_") || strings.HasPrefix(fm[1], "axiom_") || strings.HasPrefix(fm[1], "globalinv_")) {
-					broken[fm[1]] = m[3]
-					src[lineNo-1] = "// stale: " + fm[1]
-					overlay[m[1]] = []byte(strings.Join(src, "\n"))
-					found = true
+				// the function declaration the error lies in: a synthesised clause function (one line) or a helper declared in
+				// the contract file (`go func`, possibly several lines). It is dropped; clauses that used a dropped helper fail
+				// to type-check on the next attempt and are dropped in turn (stale: undecided, reported).
+				funcRe := regexp.MustCompile(`^func ([A-Za-z0-9_]+)\(`)
+				start := lineNo - 1
+				for start >= 0 && funcRe.FindStringSubmatch(src[start]) == nil && !strings.HasPrefix(src[start], "// stale") {
+					start--
+				}
+				if start >= 0 {
+					if fm := funcRe.FindStringSubmatch(src[start]); fm != nil {
+						depth, end := 0, start
+						for j := start; j < len(src); j++ {
+							depth += strings.Count(src[j], "{") - strings.Count(src[j], "}")
+							end = j
+							if depth <= 0 && strings.Contains(strings.Join(src[start:j+1], ""), "{") {
+								break
+							}
+						}
+						if end >= lineNo-1 {
+							broken[fm[1]] = m[3]
+							for j := start; j <= end; j++ {
+								src[j] = "// stale: " + fm[1]
+							}
+							overlay[m[1]] = []byte(strings.Join(src, "\n"))
+							found = true
+						}
+					}
 				}
 			}
 		}
@@ -128,6 +150,11 @@ func (ob *Obligation) counts(prop string, safety bool) bool {
 	// are assumptions of the whole analysis (listed in the evidence) and are not owed at call sites inside the library;
 	// untagged preconditions (`requires label: ...`) are about arguments the library computes itself and are owed by
 	// every caller in every check
+	if ob.Kind == "inv-init" || ob.Kind == "inv-step" {
+		// a loop invariant is assumed at the loop head by everything proved after it, whichever property that serves: its
+		// establishment and preservation are owed in every check that lists the function
+		return true
+	}
 	if len(ob.Tags) > 0 {
 		for _, t := range ob.Tags {
 			if t == prop {
@@ -416,7 +443,7 @@ func cmdCheck(args []string) {
 		for nk, ok := range e.renamedNew {
 			blName = strings.Replace(blName, nk+"#", ok+"#", 1)
 		}
-		if ob.Unit.preStale && !isKnown {
+		if (ob.Unit.preStale || (ob.Unit.calleeStaleAt > 0 && ob.cmdIdx >= ob.Unit.calleeStaleAt-1)) && !isKnown {
 			// the unit was verified without a precondition that could not be evaluated: what fails in it is undecided
 			undecided = append(undecided, ob)
 			continue
@@ -500,7 +527,7 @@ func cmdCheck(args []string) {
 		if !tagged {
 			continue
 		}
-		name := fmt.Sprintf("%s.%s#dispatch:%s", pkgShort(dc.Pkg), dc.Type, dc.Method)
+		name := dc.obName()
 		okd, why := dc.holds(e.L)
 		total++
 		res := "unsat"
@@ -509,7 +536,7 @@ func cmdCheck(args []string) {
 		} else {
 			res = "sat"
 		}
-		reports = append(reports, obReport{Name: name, Kind: "dispatch", Unit: pkgShort(dc.Pkg) + "." + dc.Type, Result: res, Solver: "go/types", Clause: fmt.Sprintf("%s.%s is the method promoted from the embedded %s", dc.Type, dc.Method, dc.From)})
+		reports = append(reports, obReport{Name: name, Kind: "dispatch", Unit: pkgShort(dc.Pkg) + "." + dc.Type, Result: res, Solver: "go/types", Clause: dc.describe()})
 		if !okd {
 			violations++
 			path := filepath.Join(replayRoot(), *prop, sanitize(name)+".json")
@@ -534,6 +561,13 @@ func cmdCheck(args []string) {
 		}
 		for _, s := range u.rebinds {
 			fmt.Printf("RE-BOUND: %s\n", s)
+		}
+		seenCS := map[string]bool{}
+		for _, s := range u.calleeStale {
+			if !seenCS[s] {
+				seenCS[s] = true
+				fmt.Printf("STALE-CALLEE-CLAUSE (not assumed; failures of the unit are undecided): %s\n", s)
+			}
 		}
 	}
 	// baseline obligations that vanished
@@ -713,6 +747,13 @@ func tryReplay(e *Engine, prop string, ob *Obligation, path string) bool {
 // baselineHas matches per-return-site obligations (name@retN) against the baseline by clause name, so
 // that adding or removing a return statement does not turn a failing clause into an "unknown new" one.
 func baselineHas(bl map[string]bool, name string) bool {
+	// occurrences of one obligation (same function, kind and access path) are numbered name, name~2, name~3 ...: a further
+	// occurrence of a family that was discharged throughout on the unchanged tree belongs to the baseline
+	if j := strings.LastIndex(name, "~"); j > 0 {
+		if _, err := strconv.Atoi(name[j+1:]); err == nil && bl[name[:j]] {
+			return true
+		}
+	}
 	i := strings.Index(name, "@ret")
 	if i < 0 {
 		return false
